@@ -394,6 +394,27 @@ def mk_wb2axi(dw, aw, base=0, pol=None, small=False, tag=""):
                     env=env, monitor=mon, m_par=dict(dw=dw, aw=aw, adr=aw - shift), s_par=dict(dw=dw, aw=aw, idw=1))
 
 
+def mk_axi2wb_sram(dw, aw=16, p_wgap=0.6, max_len=15, tag=""):
+    """AXI2Wishbone in front of the repo's own `wishbone.SRAM` (registered ack), closed: a protocol-following AXI
+    master that leaves gaps between the W beats of its bursts (W valid, once raised, is held until taken - AXI
+    A3.2.1) and delays AW / W against each other; flat-memory, burst, stability and progress monitors on the AXI port.
+    (A master that WITHDRAWS w.valid before w.ready is outside the protocol: the bridge then pairs the registered ack
+    with the next beat and hangs - observed by the C10 builder's first driver; not a defect of the bridge.)"""
+    nb = dw // 8
+    shift = log2(nb)
+    axi = AXIInterface(data_width=dw, address_width=aw, id_width=2)
+    wb = wishbone.Interface(data_width=dw, adr_width=aw - shift, addressing="word")
+    top = Module()
+    top.submodules.bridge = AXI2Wishbone(axi, wb)
+    init = [sum(L.init_byte(nb * i + j) << (8 * j) for j in range(nb)) for i in range((1 << 12) // nb)]
+    top.submodules.sram = wishbone.SRAM(1 << 12, bus=wb, init=init)   # the monitors' reference memory content
+    name = "AXI2Wishbone(dw=%d)+wishbone.SRAM/w-gaps%s" % (dw, tag)
+    master = AxiMaster(12, nb, max_len=max_len, p_wgap=p_wgap, p_wr=0.5, p_rd=0.2, max_delay=4, w_early=True)
+    env = Env(master, None, None)
+    mon = lambda inst: BridgeMonitor(inst, "axi", None, nb, nb, lambda a: a & 0xfff, None, errs=False, hang=400)
+    return MonitorOnlyInst(name, top, "unit", "axi", axi, env=env, monitor=mon, m_par=dict(dw=dw, aw=aw, idw=2))
+
+
 def mk_adapter(master_kind, master_dw, bus_std, bus_dw, direction, pol, aw=32, tag=""):
     """The adapter chain `SoCBusHandler.add_adapter` inserts between an interface of one standard/width and a bus of
     another (direction m2s: the interface is a master of the bus; s2m: it is a slave of the bus).  The harness
@@ -607,6 +628,7 @@ def jobs(tier):
         W(lambda dw=dw: mk_axlsram(dw, 32, 8, master="busy"))
         W(lambda dw=dw: mk_axldown(dw, dw // 2, 32, pol="fast", master="busy"))
         W(lambda dw=dw: mk_axlup(dw // 2, dw, 32, pol="fast", master="aw-then-w-busy"))
+    B(lambda: mk_axi2wb_sram(32), cycles=2500 if quick else 10000)
     W(lambda: mk_adapter("axi-lite", 256, "axi", 256, "m2s", "fast"))
     W(lambda: mk_adapter("wishbone", 512, "axi", 512, "m2s", "fast"))
     return J
